@@ -737,3 +737,41 @@ VARIANTS += [
                        "        stripped = raw.strip(\" \\t\\r\\n\\x0b\\x0c\")\n        if stripped:\n            yield stripped\n\n\n"
                        "def _yield_schema_tokens(reader: StringIO):\n    for _unused in ():\n        yield from _populated_lines(reader)\n"}]},
 ]
+
+# ---------------------------------------------------------------------- round 9
+VARIANTS += [
+    {"name": "R2 wearable reader takes its lines from splitlines()", "file": WEARABLES, "expect": "C20.R2",
+     "old": "    def from_reader(cls, reader: StringIO) -> Wearable:\n",
+     "new": "    def from_reader(cls, reader: StringIO) -> Wearable:\n"
+            "        reader = StringIO(\"\\n\".join(reader.read().splitlines()) + \"\\n\")\n"},
+    {"name": "P R2 text normalised by replacing CRLF only", "file": SCHEMA, "expect": "silent",
+     "old": "        return cls.from_reader(StringIO(text))\n",
+     "new": "        return cls.from_reader(StringIO(text.replace(\"\\r\\n\", \"\\n\")))\n"},
+    {"name": "P R4 chunk table from enumerate(to_chunks(...))", "expect": "silent",
+     "edits": [{"file": XFER, "old": _SENDER_LOOP_OLD, "new": "            self.chunks = dict(enumerate(to_chunks(data, MAX_CHUNK_SIZE)))\n"},
+               {"file": XFER, "old": "from hippolyzer.lib.base.helpers import create_logged_task\n",
+                "new": "from hippolyzer.lib.base.helpers import create_logged_task, to_chunks\n"}]},
+    {"name": "R4 to_chunks fed the payload before the prefix", "expect": "C20.R4",
+     "edits": [{"file": XFER, "old": _PREFIX_COMMENT, "new": "            self.chunks.update(enumerate(to_chunks(data, MAX_CHUNK_SIZE)))\n" + _PREFIX_COMMENT},
+               {"file": XFER, "old": _SENDER_LOOP_OLD, "new": ""},
+               {"file": XFER, "old": "from hippolyzer.lib.base.helpers import create_logged_task\n",
+                "new": "from hippolyzer.lib.base.helpers import create_logged_task, to_chunks\n"}]},
+    {"name": "P R5 completion test moved onto the transfer object", "expect": "silent",
+     "edits": [{"file": TRANSFER, "old": "        if not transfer.done() and len(transfer.chunks) == transfer.expected_chunks:\n            transfer.mark_done()\n",
+                "new": "        transfer.finish_if_all_here()\n"},
+               {"file": TRANSFER, "old": "    def mark_done(self):\n",
+                "new": "    def finish_if_all_here(self):\n        if self.done():\n            return\n"
+                       "        if len(self.chunks) == self.expected_chunks:\n            self.mark_done()\n\n    def mark_done(self):\n"}]},
+    {"name": "R5 object-side completion ignores the chunk count", "expect": "C20.R5",
+     "edits": [{"file": TRANSFER, "old": "        if not transfer.done() and len(transfer.chunks) == transfer.expected_chunks:\n            transfer.mark_done()\n",
+                "new": "        transfer.finish_if_all_here()\n"},
+               {"file": TRANSFER, "old": "    def mark_done(self):\n",
+                "new": "    def finish_if_all_here(self):\n        if not self.done() and self.expected_chunks is not None:\n"
+                       "            self.mark_done()\n\n    def mark_done(self):\n"}]},
+    {"name": "P R11 templated spec handed to a per-field reader helper", "expect": "silent",
+     "edits": [{"file": MESH, "old": "                reader = se.BufferReader(\"<\", val)\n                new_segment[key] = reader.read(self._templates[key])\n",
+                "new": "                reader = se.BufferReader(\"<\", val)\n                new_segment[key] = self._unpack(reader, self._templates[key])\n"},
+               {"file": MESH, "old": "    def deserialize(self, vals: Dict[str, Any]):\n        new_segment = {}\n",
+                "new": "    @staticmethod\n    def _unpack(stream, template):\n        return stream.read(template)\n\n"
+                       "    def deserialize(self, vals: Dict[str, Any]):\n        new_segment = {}\n"}]},
+]
